@@ -24,7 +24,7 @@ THEOREMS = ['C18_flat', 'C18_characterisation', 'C18_root', 'C18_wording', 'C18_
 
 
 def gen(rng, i, tier):
-    c = hsm.gen_case(rng, p_final_compound=(0.5 if i % 5 == 4 else 0.0))
+    c = hsm.gen_case(rng, p_final_compound=(0.5 if i % 5 == 4 else 0.0), p_enum=0.15)
     cb = [0]
     for p, d in hsm.all_defs(c['machine']):
         for key in ('enter', 'onfinal'):
@@ -122,6 +122,8 @@ def nontrivial(case, obs):
 
 
 def stats(case, obs, dist):
+    if case.get('enum'):
+        dist['cases_with_enum_named_states'] = dist.get('cases_with_enum_named_states', 0) + 1
     if not isinstance(obs, list) or obs[0] != 1:
         return
     for items, res, cfg in obs[2]:
@@ -144,7 +146,7 @@ def extra_checks(tier, seed):
     cases = []
     for i in range(n):
         rng = random.Random('C18a-%d-%d' % (seed, i))
-        c = hsm.gen_case(rng, p_parallel=0.4)
+        c = hsm.gen_case(rng, p_parallel=0.4, p_enum=0.15)
         k = [0]
         for p, d in hsm.all_defs(c['machine']):
             if not d['onfinal']:
